@@ -26,12 +26,44 @@ Definition zmem (x : Z) (l : list Z) : bool := existsb (Z.eqb x) l.
 
 Inductive adkind := ADInt (b : branch) | ADFloat | ADBad.
 
-(** the second `switch (type)` of array_diff *)
+(** Floating-point branches.  The arithmetic itself (IEEE rounding, printf/strtod) is not modelled; what is
+    modelled is the *width skeleton* of the difference expression (regenerated: adf32_diff, adf64_diff): at which
+    width the subtraction is carried out and where a value is narrowed.  [feval] gives it a meaning over any
+    value domain with a rounding function; [fmin_width] is the narrowest format the difference passes through. *)
+Section FloatSem.
+  Variable V : Type.
+  Variables (vsub : V -> V -> V) (vabs : V -> V) (rnd : Z -> V -> V).
+  Fixpoint feval (e : fexpr) (a b : V) : V :=
+    match e with
+    | FA => a
+    | FB => b
+    | FSub w x y => rnd w (vsub (feval x a b) (feval y a b))
+    | FAbs x => vabs (feval x a b)
+    | FNarrow w x => rnd w (feval x a b)
+    end.
+End FloatSem.
+
+Fixpoint fmin_width (elt : Z) (e : fexpr) : Z :=
+  match e with
+  | FA | FB => elt
+  | FSub w x y => Z.min w (Z.min (fmin_width elt x) (fmin_width elt y))
+  | FAbs x => fmin_width elt x
+  | FNarrow w x => Z.min w (fmin_width elt x)
+  end.
+
+(** the branch computes the difference in the element type's own width (or wider) *)
+Definition float_own_width (nt : Z) : bool :=
+  if nt =? DFNT_FLOAT32 then adf32_elt_bits <=? fmin_width adf32_elt_bits adf32_diff
+  else if nt =? DFNT_FLOAT64 then adf64_elt_bits <=? fmin_width adf64_elt_bits adf64_diff
+  else false.
+
+(** the second `switch (type & DFNT_MASK)` of array_diff (controlling expression regenerated: ad_type_key) *)
 Definition ad_kind (nt : Z) : adkind :=
-  if zmem nt ad8_types then ADInt br8
-  else if zmem nt ad16_types then ADInt br16
-  else if zmem nt ad32_types then ADInt br32
-  else if (nt =? DFNT_FLOAT32) || (nt =? DFNT_FLOAT64) then ADFloat
+  let k := ad_type_key nt in
+  if zmem k ad8_types then ADInt br8
+  else if zmem k ad16_types then ADInt br16
+  else if zmem k ad32_types then ADInt br32
+  else if (k =? DFNT_FLOAT32) || (k =? DFNT_FLOAT64) then (if float_own_width k then ADFloat else ADBad)
   else ADBad.
 
 (** command-line options that reach array_diff: -t limit (already cast to int32), -p relative (as a rational
@@ -66,8 +98,10 @@ Fixpoint ad_loop (br : branch) (o : adopts) (i : Z) (a b : list Z) (n : Z) (pr :
   | _, _ => (n, rev pr)
   end.
 
-(** floating-point branches are NOT modelled arithmetically (no printf/strtod/IEEE model): for NaN-free data
-    without negative zero and without options, fabs(a-b) > 0 iff the bit patterns differ. *)
+(** executable form of the floating-point branches: for NaN-free data without negative zero and without
+    options, a difference computed in the element's own width is > 0 iff the bit patterns differ (gradual
+    underflow; theorem array_diff_float_own_width states this over [feval]); [ad_kind] selects ADFloat only
+    when the regenerated skeleton has that shape. *)
 Fixpoint ad_float (i : Z) (a b : list Z) (n : Z) (pr : list Z) : Z * list Z :=
   match a, b with
   | x :: a', y :: b' => if x =? y then ad_float (i + 1) a' b' n pr else ad_float (i + 1) a' b' (n + 1) (i :: pr)
@@ -278,7 +312,7 @@ Definition fmt_unsigned (f : list Z) : bool := zlist_eqb f [37; 117] || zlist_eq
 Definition fmt_long (f : list Z) : bool := zlist_eqb f [37; 108; 100] || zlist_eqb f [37; 108; 117].
 
 Definition hdp_routine (nt : Z) : option (bool * Z * list Z) :=
-  match zassoc nt select_func_switch with
+  match zassoc (select_func_key nt) select_func_switch with
   | Some 2 => Some (false, 8, fmtuint8_format)                    (* *(unsigned char * )x *)
   | Some 3 => Some (true, 8, fmtint8_format)                      (* *(signed char * )x *)
   | Some 4 => Some (fmtuint16_var_signed, fmtuint16_var_bits, fmtuint16_format)
@@ -375,3 +409,34 @@ Definition import_m (outbits : Z) (s : list Z) : option (list Z * list Z) :=
       end
   | _, _ => None
   end.
+
+(* ------------------------------------------------------------------------------------------ *)
+(** * The domain of the equality claim: "comparable content" *)
+
+(** values of an array of number type t lie in the type's range (integer types, any flavour), or t is a
+    floating type (values are bit patterns of NaN-free data without negative zero) *)
+Definition elem_domain (t : Z) (v : list Z) : Prop :=
+  (exists lo hi, nt_range (Z.land t DFNT_MASK) = Some (lo, hi) /\ Forall (in_range lo hi) v) \/ ad_kind t = ADFloat.
+
+Definition attr_shape (a b : attr) : Prop :=
+  a_name a = a_name b /\ a_type a = a_type b /\ length (a_vals a) = length (a_vals b).
+
+(** two objects hdiff pairs up are of the same class, type and shape (otherwise: "Comparison not supported") *)
+Definition comparable_body (x y : body) : Prop :=
+  match x, y with
+  | BSds t1 d1 v1 a1, BSds t2 d2 v2 a2 =>
+      t1 = t2 /\ d1 = d2 /\ v1 <> [] /\ length v1 = length v2 /\ elem_domain t1 v1 /\ elem_domain t1 v2 /\ Forall2 attr_shape a1 a2
+  | BGr t1 c1 x1 y1 v1, BGr t2 c2 x2 y2 v2 =>
+      t1 = t2 /\ c1 = c2 /\ x1 = x2 /\ y1 = y2 /\ 0 <= x1 * y1 * c1 /\ Z.of_nat (length v1) = x1 * y1 * c1 /\
+      Z.of_nat (length v2) = x1 * y1 * c1 /\ elem_domain t1 v1 /\ elem_domain t1 v2
+  | BVd n1 f1 v1, BVd n2 f2 v2 => n1 = n2 /\ f1 = f2
+  | BVg, BVg => True
+  | _, _ => False
+  end.
+
+(** same object names in the same order (an object present in one file only is the known finding
+    match_added_object_refuted), pairwise comparable, global attribute names unique *)
+Definition comparable (f1 f2 : file) : Prop :=
+  map o_name (f_objs f1) = map o_name (f_objs f2) /\
+  Forall2 (fun a b => comparable_body (o_body a) (o_body b)) (f_objs f1) (f_objs f2) /\
+  NoDup (map a_name (f_gattrs f1)) /\ NoDup (map a_name (f_gattrs f2)).
